@@ -130,6 +130,21 @@ def check_narrow_int(case):
     return fails, (dt, len(x), r)
 
 
+@kind("repeat-long")
+def check_repeat_long(case):
+    m, gk, r, path = case["len"], case["grid"], case["r"], case["path"]
+    fails, sig = check_repeat({"x": A.long_grid(m, gk), "y": A.long_values(m, "saw"), "r": r, "path": path, "dtype": "float64",
+                               "as_list": False, "exact": True})
+    for f in fails:
+        d = f.get("detail")
+        if isinstance(d, dict):
+            for k in list(d):
+                if isinstance(d[k], (list, tuple, np.ndarray)) and len(d[k]) > 12:
+                    d[k] = {"len": len(d[k]), "head": [float(v) for v in list(d[k])[:4]], "tail": [float(v) for v in list(d[k])[-4:]]}
+        f["key"] = dict(f["key"], long=True)
+    return fails, (None if sig is None else (path, m, r, sig[3]))
+
+
 REPEAT_HIST_OPS = [("trend", "half-t", False), ("shift_x", 1.0), ("scale_y", 2.0), ("repeat", 2), ("repeat", 3), ("append", False),
                    ("truncate_by_index", 1, None), ("smooth", 0.5), ("restore_original",), ("noise", "scalar")]
 
@@ -207,5 +222,19 @@ def harnesses(tier, seed):
             judge(ctx, check_repeat_in_state, {"init": ii, "ops": [list(o) for o in ops], "r": r}, calls=2,
                   nontrivial=lambda sg: sg[0] != "skipped")
 
+    long_sizes = A.sizes(130 if quick else 300, 2100 if quick else 140000, minimum=2)
+    long_r = [1, 2, 3, 5, 6, 7, 10, 13, 16, 17] if quick else list(range(1, 35))
+
+    def long_body(ctx):
+        m = ctx.choose(long_sizes, "len")
+        gk = ctx.choose(["uniform", "gaps", "offset"], "grid")
+        path = ctx.choose(["process", "weaver"], "path")
+        for r in long_r:
+            if m * r > (40000 if quick else 600000):
+                continue
+            judge(ctx, check_repeat_long, {"len": m, "grid": gk, "r": r, "path": path}, bulk=True, nontrivial=lambda sg: sg[2] > 1)
+
     return [{"name": "repeat", "body": body}, {"name": "narrow-integer-abscissae", "body": narrow_body},
+            {"name": "repeat-long-series", "body": long_body,
+             "bound_text": "every length 2..%d, 2^k+1 and around every integer constant of the code up to %d; r in %s" % (130 if quick else 300, long_sizes[-1], long_r)},
             {"name": "repeat-in-every-state", "body": state_body}]
